@@ -108,10 +108,12 @@ impl Mix {
             cont: 8,
             break_add: 4,
             break_remove: 1,
-            break_list: 0,
-            print: 1,
+            break_list: 1,
+            print: 2,
             registers: 1,
-            assembly: 0,
+            // (inspection commands between a mutation and the reset: they must not touch the
+            // saved initial state either)
+            assembly: 5,
             echo: 0,
             help: 0,
             mv: 22,
@@ -581,6 +583,17 @@ pub fn gen_garbage(rng: &mut Rng) -> String {
             _ => format!("echo{} x q", b(rng)),
         };
     }
+    if rng.chance(1, 14) {
+        // A tab is not a blank of the command language, whatever the transport
+        return rng
+            .pick(&["move\tr1\t5", "break\tadd x3001", "step\tinto 2", "print\tr1", "goto\t^1", "m r1\t7"])
+            .to_string();
+    }
+    if rng.chance(1, 14) {
+        // Counts beyond 16 bits are rejected, not wrapped
+        let count = *rng.pick(&["65536", "65537", "x10000", "x10003", "70000", "-32769", "131072", "#65536", "0x1ffff"]);
+        return format!("{} {}", rng.pick(&["stepinto", "si", "step into", "s i", "STEPINTO"]), count);
+    }
     if rng.chance(1, 12) {
         // A long token with multi-byte characters at assorted byte offsets (code that quotes or
         // shortens the offending text must cut at character boundaries)
@@ -796,6 +809,32 @@ pub fn gen_script(rng: &mut Rng, ctx: &Ctx, mix: &Mix, max_len: usize, end: EndS
                 }),
                 spell: rng.next_u64(),
             });
+        }
+    }
+    if mix.eval > 0 && mix.mv > 0 && mix.goto > 0 && !ctx.labels.is_empty() && rng.chance(1, 10) {
+        // The instruction under the PC replaced, by an evaluated store, with a HALT (or with a
+        // subroutine call): whatever the debugger remembers about that address is stale now
+        let (label, addr) = rng.pick(&ctx.labels).clone();
+        if ctx.code_addrs.contains(&addr) {
+            let reg = 1 + rng.below(5) as u8;
+            let word: i64 = *rng.pick(&[0xF025i64, 0xF025, 0x4100, 0xC1C0]);
+            for cmd in [
+                Cmd::Goto(Loc::Label { name: label.clone(), off: 0 }),
+                Cmd::Move(Target::Reg(reg), word),
+                Cmd::Eval(EvalInstr {
+                    text: format!("st r{}, {}", reg, label),
+                    kind: EvalKind::LabelOp {
+                        op: 0x3,
+                        reg,
+                        label: label.clone(),
+                    },
+                }),
+            ] {
+                items.push(Item {
+                    cmd,
+                    spell: rng.next_u64(),
+                });
+            }
         }
     }
     let mut break_addrs: Vec<i64> = Vec::new();
